@@ -3,7 +3,7 @@
    Model: Tcp/Sender.v (TCPPacketGenerator.put / timeout_callback / run + CongestionControl).
    [fx] ranges over the repair flags; every theorem that needs the deflation repair says so. *)
 From Coq Require Import ZArith QArith Qabs Qminmax List.
-From ONL Require Import Tcp.Sender Tcp.SenderProofs Gen.Extracted_cc Tcp.CcBridge.
+From ONL Require Import Tcp.Sender Tcp.SenderProofs Gen.Extracted_cc Tcp.CcBridge Tcp.Cubic Tcp.CubicProofs.
 Import ListNotations.
 Open Scope Z_scope.
 
@@ -206,3 +206,121 @@ Theorem C17_gen_reno_ack : forall c cw ss ccnt cn o,
               x_ssthresh (g_TCPReno_ack_received (mkcc (zq (mss c)) cw ss)) = ss.
 Proof. exact bridge_reno_ack. Qed.
 Print Assumptions C17_gen_reno_ack.
+
+(* --- TCPCubic exactly (Tcp/Cubic.v): the cnt that the sender model takes as an oracle is computed by
+   the model of cubic_update / cubic_tcp_friendliness over Q (C = 2/5, beta = 1/5, (t-K)^3 an
+   integer power).  [stepx] = [step] with that value. --- *)
+
+(* the oracle is looked at only when put() reaches ack_received(), ... *)
+Theorem C17_oracle_only_in_ack_received : forall fx c s ackno pid sample o o',
+  ack_counts s ackno = false -> on_ack fx c s ackno pid sample o = on_ack fx c s ackno pid sample o'.
+Proof. exact on_ack_oracle_irrelevant. Qed.
+Print Assumptions C17_oracle_only_in_ack_received.
+
+(* ... and then ack_received() runs on cwnd = ack_cwnd (after the deflation, if any) *)
+Theorem C17_ack_received_sees_ack_cwnd : forall fx c s ackno pid sample o,
+  ack_counts s ackno = true -> 0 <= dupack s ->
+  ackno <> last_ack s /\
+  on_ack fx c s ackno pid sample o =
+  let s1 := set_dupack (set_cc s (ack_cwnd fx s ackno) (ssthresh s)) 0 in
+  match cc_ack c (ack_cwnd fx s ackno) (ssthresh s) (cwnd_cnt s) (cnt s) o with
+  | None => Raise ZeroDiv
+  | Some (cw, ccnt, cn) =>
+      let ids := acked_ids fx c s1 ackno pid in
+      match stop_all ids (timers s) (sent s) [] with
+      | None => Raise (KeyErr (first_missing ids (sent s)))
+      | Some (t, se, oo) =>
+          Ok (store_put (mkst (next_seq s) (send_buffer s) ackno 0 cw (ssthresh s)
+                              (srtt s + (1 # 8) * (sample - srtt s))%Q
+                              (rttvar s + (1 # 4) * (Qabs (sample - srtt s) - rttvar s))%Q
+                              (srtt s + (1 # 8) * (sample - srtt s) + (4 # 1) * (rttvar s + (1 # 4) * (Qabs (sample - srtt s) - rttvar s)))%Q
+                              ccnt cn t se (tokens s) (pend s) (waiting s) (wake s) (finished s))) oo
+      end
+  end.
+Proof. exact on_ack_counts. Qed.
+Print Assumptions C17_ack_received_sees_ack_cwnd.
+
+(* every transition of the composed model is a transition of the sender model (so all theorems above,
+   stated for every oracle value, hold for TCPCubic with its real cnt) *)
+Theorem C17_stepx_is_step : forall fx c s cs e s' cs' o,
+  stepx fx c s cs e = XOk s' cs' o ->
+  exists ev, step fx c s ev = Ok s' o /\
+             match e, ev with
+             | XAck a p sm _, EAck a' p' sm' _ => a = a' /\ p = p' /\ sm = sm'
+             | XExpire i, EExpire i' => i = i'
+             | XStoreCb, EStoreCb | XWake, EWake => True
+             | _, _ => False
+             end.
+Proof. exact stepx_is_step. Qed.
+Print Assumptions C17_stepx_is_step.
+
+(* the cube-root branch (cwnd < W_last_max) is dead: W_last_max is only ever 0, cwnd >= MSS > 0 *)
+Theorem C17_cubic_root_unreachable : forall fx c cw0 ss0 rtt0 evs,
+  fx_deflate3 fx = true -> 0 < mss c -> (zq (mss c) <= cw0)%Q ->
+  runx fx c (init cw0 ss0 rtt0) cubic0 evs <> XCubicRoot.
+Proof. exact cubic_root_unreachable. Qed.
+Print Assumptions C17_cubic_root_unreachable.
+
+Theorem C17_cubic_friendliness_gain : ((3 # 1) * cBeta / ((2 # 1) - cBeta) == 1 # 3)%Q.
+Proof. exact friendliness_gain. Qed.
+Print Assumptions C17_cubic_friendliness_gain.
+
+(* the cubic / TCP-friendly growth: congestion avoidance with a running epoch *)
+Theorem C17_cubic_growth_rule : forall cs cw ss rtt now,
+  ~ (cw <= ss)%Q -> (0 < c_epoch cs)%Q ->
+  let dmin := if Qltb 0 (c_dmin cs) then (if Qltb rtt (c_dmin cs) then rtt else c_dmin cs) else rtt in
+  let t := (now + dmin - c_epoch cs)%Q in
+  let target := (c_origin cs + (2 # 5) * ((t - c_k cs) * (t - c_k cs) * (t - c_k cs)))%Q in
+  let wtcp := (c_wtcp cs + (3 # 1) * cBeta / ((2 # 1) - cBeta) * (inject_Z (c_ackcnt cs + 1) / cw))%Q in
+  let cnt1 := if Qltb cw target then (cw / (target - cw))%Q else ((100 # 1) * cw)%Q in
+  cubic_ack cs cw ss rtt now =
+  CubOk (mkcub (c_wlast cs) (c_epoch cs) (c_origin cs) dmin wtcp (c_k cs) 0)
+        (Some (if Qltb cw wtcp then (if Qltb (cw / (wtcp - cw)) cnt1 then cw / (wtcp - cw) else cnt1)%Q else cnt1)).
+Proof. exact cubic_growth_rule. Qed.
+Print Assumptions C17_cubic_growth_rule.
+
+(* a new epoch: origin_point = cwnd, epoch_start = now, W_tcp = cwnd, K = 0 *)
+Theorem C17_cubic_epoch_start_rule : forall cs cw ss rtt now,
+  ~ (cw <= ss)%Q -> (c_epoch cs <= 0)%Q -> ~ (cw < c_wlast cs)%Q ->
+  let dmin := if Qltb 0 (c_dmin cs) then (if Qltb rtt (c_dmin cs) then rtt else c_dmin cs) else rtt in
+  let t := (now + dmin - now)%Q in
+  let target := (cw + (2 # 5) * ((t - 0) * (t - 0) * (t - 0)))%Q in
+  let wtcp := (cw + (3 # 1) * cBeta / ((2 # 1) - cBeta) * (inject_Z 1 / cw))%Q in
+  let cnt1 := if Qltb cw target then (cw / (target - cw))%Q else ((100 # 1) * cw)%Q in
+  cubic_ack cs cw ss rtt now =
+  CubOk (mkcub (c_wlast cs) now cw dmin wtcp 0 0)
+        (Some (if Qltb cw wtcp then (if Qltb (cw / (wtcp - cw)) cnt1 then cw / (wtcp - cw) else cnt1)%Q else cnt1)).
+Proof. exact cubic_epoch_start_rule. Qed.
+Print Assumptions C17_cubic_epoch_start_rule.
+
+Theorem C17_cubic_slow_start_rule : forall cs cw ss rtt now,
+  (cw <= ss)%Q ->
+  cubic_ack cs cw ss rtt now =
+  CubOk (mkcub (c_wlast cs) (c_epoch cs) (c_origin cs)
+               (if Qltb 0 (c_dmin cs) then (if Qltb rtt (c_dmin cs) then rtt else c_dmin cs) else rtt)
+               (c_wtcp cs) (c_k cs) (c_ackcnt cs)) None.
+Proof. exact cubic_slow_start_rule. Qed.
+Print Assumptions C17_cubic_slow_start_rule.
+
+Theorem C17_cubic_cnt_pos : forall cs cw ss rtt now cs' q,
+  (0 < cw)%Q -> cubic_ack cs cw ss rtt now = CubOk cs' (Some q) -> (0 < q)%Q.
+Proof. exact cubic_cnt_pos. Qed.
+Print Assumptions C17_cubic_cnt_pos.
+
+(* the ACK rule of TCPCubic with the computed cnt (extends C17_cubic_ack_rule) *)
+Theorem C17_cubic_new_ack_rule : forall fx c s cs ackno pid sample now cs' q,
+  calg c = Cubic -> ack_counts s ackno = true -> 0 <= dupack s ->
+  cubic_ack cs (ack_cwnd fx s ackno) (ssthresh s) sample now = CubOk cs' q ->
+  stepx fx c s cs (XAck ackno pid sample now) =
+  match on_ack fx c s ackno pid sample (match q with Some x => x | None => cnt s end) with
+  | Ok s' o => XOk s' cs' o
+  | Raise x => XRaise x
+  end /\
+  cc_ack c (ack_cwnd fx s ackno) (ssthresh s) (cwnd_cnt s) (cnt s) (match q with Some x => x | None => cnt s end) =
+  Some (match q with
+        | None => ((ack_cwnd fx s ackno + zq (mss c))%Q, cwnd_cnt s, cnt s)
+        | Some x => if Qltb x (zq (cwnd_cnt s)) then ((ack_cwnd fx s ackno + zq (mss c))%Q, 0, x)
+                    else (ack_cwnd fx s ackno, cwnd_cnt s + 1, x)
+        end).
+Proof. exact cubic_new_ack_rule. Qed.
+Print Assumptions C17_cubic_new_ack_rule.
